@@ -2,6 +2,7 @@ package checks
 
 import (
 	"fmt"
+	"net/http"
 	"sort"
 	"strings"
 
@@ -82,6 +83,9 @@ type c06Case struct {
 	Twin bool `json:"twin_router_with_other_strictness_served_first,omitempty"`
 	// UseAfter: a pass-through global middleware is added with Router.Use AFTER the custom NotFound / NotAllowed handlers were installed
 	UseAfter bool `json:"global_middleware_added_after_custom_handlers,omitempty"`
+	// Mounted: the requests arrive on a FRONT router (no routes; its NotFound handler hands the context to this router
+	// with HandleContext); this router's own NotFound / NotAllowed handlers answer its unmatched requests
+	Mounted bool `json:"behind_a_front_router,omitempty"`
 }
 
 func c06Gen(tier string, emit func(c06Case)) {
@@ -134,6 +138,9 @@ func c06Gen(tier string, emit func(c06Case)) {
 			for _, ic := range c06Intercepts {
 				for h := 0; h < 4; h++ {
 					emit(c06Case{Routes: t, NotAllowed: o&1 != 0, Fallback: o&2 != 0, Strict: o&4 != 0, Cache: o&8 != 0, Intercept: ic, CustomNF: h&1 != 0, CustomNA: h&2 != 0})
+					if ic == "" && h == 3 {
+						emit(c06Case{Routes: t, NotAllowed: o&1 != 0, Fallback: o&2 != 0, Strict: o&4 != 0, Cache: o&8 != 0, CustomNF: true, CustomNA: true, Mounted: true})
+					}
 					if ic == "" && h > 0 {
 						emit(c06Case{Routes: t, NotAllowed: o&1 != 0, Fallback: o&2 != 0, Strict: o&4 != 0, Cache: o&8 != 0, CustomNF: h&1 != 0, CustomNA: h&2 != 0, UseAfter: true})
 					}
@@ -226,7 +233,24 @@ func c06Run(c c06Case, st *fw.Stats) []fw.Viol {
 	if c.UseAfter {
 		r.Use(func(ctx *rux.Context) { ctx.Next() })
 	}
+	var entry http.Handler = r
+	hops := 0
+	if c.Mounted {
+		front := rux.New()
+		front.NotFound(func(ctx *rux.Context) {
+			hops++
+			if hops > 1 {
+				ctx.Text(599, "FRONT-ROUTER-AGAIN") // (never on a correct router: guards against an endless forward)
+				return
+			}
+			r.HandleContext(ctx)
+		})
+		entry = front
+	}
 	cfg := func() string {
+		if c.Mounted {
+			return fmt.Sprintf("table [%s] options{notAllowed=%v fallback=%v strict=%v cache=%v customNF=%v customNA=%v} (requests arrive on a front router whose NotFound handler forwards them with HandleContext)", defsString(defs), c.NotAllowed, c.Fallback, c.Strict, c.Cache, c.CustomNF, c.CustomNA)
+		}
 		if c.UseAfter {
 			return fmt.Sprintf("table [%s] options{notAllowed=%v fallback=%v strict=%v cache=%v customNF=%v customNA=%v} (a pass-through global middleware added with Use after the custom handlers were installed)", defsString(defs), c.NotAllowed, c.Fallback, c.Strict, c.Cache, c.CustomNF, c.CustomNA)
 		}
@@ -348,7 +372,8 @@ func c06Run(c c06Case, st *fw.Stats) []fw.Viol {
 					// the same request through ServeHTTP
 					rec.n, rec.idx = 0, -1
 					ctxAllowed = "<not called>"
-					resp, pv := serve(r, m, p)
+					hops = 0
+					resp, pv := serve(entry, m, p)
 					if pv != nil {
 						add("serve:panic", fmt.Sprintf("%s: ServeHTTP(%s %q) panicked: %v", cfg(), m, p, pv))
 						break
@@ -403,7 +428,7 @@ func c06Run(c c06Case, st *fw.Stats) []fw.Viol {
 var c06Spec = fw.Spec[c06Case]{
 	ID:    "C06",
 	Level: "model_checking",
-	Rule: "complete product: ordered tables of <=K routes from a 15-route pool x 2^4 option subsets {HandleMethodNotAllowed,HandleFallbackRoute,StrictLastSlash,caching (capacity 1 or 64)} x 6 InterceptAll values (listed after and before the other options) (+ every table with its last 1 or 2 routes registered only after a first round of all requests) (+ every table registered through each of the 6 other registration APIs) (+ request paths of every length 20..319 bytes against a two-route table) (+ every table and option subset again, incl. six unclean path spellings, with a second router of the other StrictLastSlash setting serving every request first) x {default,custom} NotFound x {default,custom} NotAllowed (the custom ones also followed by a later Router.Use); per configuration 10 methods x 8 paths, each request twice through Match and ServeHTTP, vs refmodel.Resolve; " +
+	Rule: "complete product: ordered tables of <=K routes from a 15-route pool x 2^4 option subsets {HandleMethodNotAllowed,HandleFallbackRoute,StrictLastSlash,caching (capacity 1 or 64)} x 6 InterceptAll values (listed after and before the other options) (+ every table with its last 1 or 2 routes registered only after a first round of all requests) (+ every table registered through each of the 6 other registration APIs) (+ request paths of every length 20..319 bytes against a two-route table) (+ every table and option subset again, incl. six unclean path spellings, with a second router of the other StrictLastSlash setting serving every request first) x {default,custom} NotFound x {default,custom} NotAllowed (the custom ones also followed by a later Router.Use, and with the requests arriving through a front router that forwards them with HandleContext); per configuration 10 methods x 8 paths, each request twice through Match and ServeHTTP, vs refmodel.Resolve; " +
 		"non-trivial = a request that is not a direct match (HEAD->GET, fallback, 405, 404)",
 	Assume: []string{"routes, paths and option values come from the stated alphabets"},
 	Bounds: func(tier string) map[string]any {
